@@ -181,6 +181,7 @@ pub fn driver_main(binary: &str, runner: fn(&PItem)) {
         hang_secs: arg(&args, "--hang-secs").and_then(|s| s.parse().ok()).unwrap_or(10),
         track_states: arg(&args, "--track-states").map(|s| s != "0").unwrap_or(true),
         state_cap: arg(&args, "--state-cap").and_then(|s| s.parse().ok()).unwrap_or(400_000),
+        journal: arg(&args, "--journal").map(|s| s.to_string()),
     };
     let hang_out = out_path.clone();
     let items_ref: &[PItem] = &items;
